@@ -78,6 +78,50 @@ func init() {
 	}
 }
 
+func init() {
+	// json.NewDecoder(r).Decode(&v) over a modelled reader: one value, trailing white space allowed
+	intrinsics["encoding/json.NewDecoder"] = func(fr *frame, args []value) value {
+		var v value = &opaque{kind: "jsondec", data: args[0]}
+		return &v
+	}
+	intrinsics["(*encoding/json.Decoder).Decode"] = func(fr *frame, args []value) value {
+		e := fr.i.ex
+		op := (*(args[0].(*value))).(*opaque)
+		r, ok := fr.i.readerContent(fr, op.data.(iface))
+		if !ok {
+			panic(abortPath{why: "json.Decoder over an unmodelled reader", kind: "unsupported"})
+		}
+		p := normRope(r.p)
+		blank := true
+		for _, x := range p {
+			if x.k != pLit || strings.TrimSpace(x.lit) != "" {
+				blank = false
+			}
+		}
+		if blank {
+			return fr.i.ioEOF()
+		}
+		n, err := e.jsonParse(p)
+		if err != nil {
+			return fr.i.newError(fr, err.msg)
+		}
+		tgt := args[1].(iface)
+		pt, okp := tgt.t.Underlying().(*types.Pointer)
+		if !okp || tgt.v == nil {
+			return fr.i.newError(fr, "json: Unmarshal(non-pointer "+tgt.t.String()+")")
+		}
+		ptr := tgt.v.(*value)
+		nv, derr := e.jsonDecode(fr, n, pt.Elem(), *ptr)
+		if derr != nil {
+			return fr.i.newError(fr, derr.msg)
+		}
+		*ptr = nv
+		return nilErr()
+	}
+	intrinsics["(*encoding/json.Decoder).UseNumber"] = func(fr *frame, args []value) value { return nil }
+	intrinsics["(*encoding/json.Decoder).DisallowUnknownFields"] = func(fr *frame, args []value) value { return nil }
+}
+
 // bytesValue turns a byte rope into the interpreter's []byte representation.
 func bytesValue(r symStr) value {
 	r.bytes = true
@@ -236,8 +280,18 @@ func (e *Exec) jsonEncode(fr *frame, t types.Type, v value, top bool) (*jnode, *
 			if skip {
 				continue
 			}
-			if u.Field(k).Embedded() {
-				panic(abortPath{why: "json: embedded struct field", kind: "unsupported"})
+			if u.Field(k).Embedded() && reflect.StructTag(u.Tag(k)).Get("json") == "" {
+				if _, isStruct := u.Field(k).Type().Underlying().(*types.Struct); isStruct {
+					// fields of an embedded struct are promoted
+					c, err := e.jsonEncode(fr, u.Field(k).Type(), sv[k], false)
+					if err != nil {
+						return nil, err
+					}
+					n.keys = append(n.keys, c.keys...)
+					n.vals = append(n.vals, c.vals...)
+					continue
+				}
+				panic(abortPath{why: "json: embedded non-struct field", kind: "unsupported"})
 			}
 			if omit && jsonEmpty(sv[k]) {
 				continue
@@ -355,7 +409,11 @@ func (e *Exec) jsonEncode(fr *frame, t types.Type, v value, top bool) (*jnode, *
 		case u.Info()&types.IsBoolean != 0:
 			b, ok := v.(bool)
 			if !ok {
-				panic(abortPath{why: "json: symbolic bool", kind: "unsupported"})
+				sb, isSym := v.(symBool)
+				if !isSym {
+					panic(abortPath{why: "json: bool value", kind: "unsupported"})
+				}
+				b = e.decide(sb.t) // a symbolic flag is rendered on both branches
 			}
 			return &jnode{kind: 'b', b: b}, nil
 		case u.Info()&types.IsInteger != 0:
@@ -982,6 +1040,24 @@ func (e *Exec) jsonDecode(fr *frame, n *jnode, t types.Type, old value) (value, 
 				}
 			}
 			if fi < 0 {
+				// promoted fields of embedded structs
+				for f := 0; f < u.NumFields(); f++ {
+					est, isStruct := u.Field(f).Type().Underlying().(*types.Struct)
+					if !u.Field(f).Embedded() || !isStruct {
+						continue
+					}
+					for g := 0; g < est.NumFields(); g++ {
+						name, _, skip, _ := jsonFieldName(est, g)
+						if !skip && strings.EqualFold(name, ks) {
+							one := &jnode{kind: 'o', keys: []value{ks}, vals: []*jnode{n.vals[k]}}
+							nv, err := e.jsonDecode(fr, one, u.Field(f).Type(), sv[f])
+							if err != nil {
+								return old, err
+							}
+							sv[f] = nv
+						}
+					}
+				}
 				continue
 			}
 			nv, err := e.jsonDecode(fr, n.vals[k], u.Field(fi).Type(), sv[fi])
